@@ -72,6 +72,10 @@ CHECKS = {
             'valid and byte-level mutated request lines between two valid requests, stream cut positions chosen by symbolic selectors; oracle: output '
             'independent of segmentation, one well-formed strict-JSON UTF-8 reply line per request in order, reply action/specifier belong to the '
             'request, neighbours unaffected, other connections untouched; codec inverse on a catalogue. Symbolic strings: CrossHair part', '5/C07'),
+    'C19': ('model_checking', 'the real UDPListener over a fake socket module: id/description padding length in a window around the limit and tail '
+            'characters chosen by symbolic selectors (ASCII, multi-byte, escape-needing), oracle: <= 508 bytes, valid UTF-8 JSON object with identity '
+            'and port, character-prefix truncation only when needed, disabled iff the identity alone does not fit; datagram sequences from a catalogue '
+            'chosen by selectors: answers iff discovery request, keeps answering. Symbolic strings: CrossHair part', '5/C19'),
 }
 NOT_YET = 'check not built yet in this round (planned per DESIGN.md section 5); not claimed until its harness runs clean'
 NOT_APPLICABLE = {}
